@@ -369,30 +369,39 @@ func (ls *LState) LoadFile(path string) (*LFunction, error) {
 	}
 
 	reader := bufio.NewReader(file)
-	// get the first character.
-	c, err := reader.ReadByte()
-	if err != nil && err != io.EOF {
+	if err := skipFirstCommentLine(reader); err != nil {
 		return nil, newApiErrorE(ApiErrorFile, err)
-	}
-	if c == byte('#') {
-		// Unix exec. file?
-		// skip first line
-		_, err, _ = readBufioLine(reader)
-		if err != nil {
-			return nil, newApiErrorE(ApiErrorFile, err)
-		}
-	}
-
-	if err != io.EOF {
-		// if the file is not empty,
-		// unread the first character of the file or newline character(readBufioLine's last byte).
-		err = reader.UnreadByte()
-		if err != nil {
-			return nil, newApiErrorE(ApiErrorFile, err)
-		}
 	}
 
 	return ls.Load(reader, path)
+}
+
+// skipFirstCommentLine drops a first line that starts with '#' (a Unix "#!" line). The newline that
+// ends it stays in the reader: it is the first line the scanner counts. A file that ends within that
+// line is an empty chunk.
+func skipFirstCommentLine(reader *bufio.Reader) error {
+	c, err := reader.ReadByte()
+	if err == io.EOF {
+		return nil
+	}
+	if err != nil {
+		return err
+	}
+	if c != '#' {
+		return reader.UnreadByte()
+	}
+	for {
+		c, err = reader.ReadByte()
+		if err == io.EOF {
+			return nil
+		}
+		if err != nil {
+			return err
+		}
+		if c == '\n' {
+			return reader.UnreadByte()
+		}
+	}
 }
 
 func (ls *LState) LoadString(source string) (*LFunction, error) {
